@@ -351,6 +351,17 @@ def parts(tier):
                     for order in ((ta, tb, tp), (tb, tp, ta), (tp, ta, tb)):
                         for s0 in D.half_grid(0, 4):
                             yield (order, 0.0, 4.0, s0, 1.0)
+        # a tier that BEGINS later than the others (its own span starts at 2: a part of the recording annotated on a tier of its own), stored first,
+        # in the middle, last: the insertion point is the same for every tier, whatever the tiers before it look like
+        late_sets = D.interval_sets((2.0, 3.0, 4.0), 2)
+        for s1 in late_sets:
+            for s2 in tsets[::stride * 2]:
+                tl = ("I", "late", D.labelled(s1), (2.0, 4.0))
+                tf = ("I", "full", D.labelled(s2, "x"))
+                tp = ("P", "p", D.labelled_points((0.5, 1.5, 3.0)))
+                for order in ((tl, tf, tp), (tf, tl, tp), (tp, tf, tl)):
+                    for s0 in (0.0, 0.5, 1.0, 1.5, 2.0, 2.5):
+                        yield (order, 0.0, 4.0, s0, 1.0)
         dsets2 = D.interval_sets(D.DEC[:5], 2)
         for s1 in dsets2[::2]:
             for s2 in dsets2[::5]:
